@@ -178,12 +178,14 @@ def r3_forwarding(ctx):
         if f is None:
             raise AnalysisError("transformation method missing")
         ctx.touched(f)
-        ex = Expander(f.node)
         n_site = 0
-        for c in calls_in(f.node):
+        from ..util import same_module_helpers
+        # the conversion may sit in a private helper extracted from the method (MultiIndex.__init__ -> _index_level_columns)
+        for g, c in [(g, c) for g in same_module_helpers(ix, f) for c in calls_in(g.node)]:
             if not (isinstance(c.func, ast.Name) and c.func.id == target) or id(c) in done:
                 continue
-            given, problems, src = _forwarded(ix, f, c, ex)
+            ex = Expander(g.node)
+            given, problems, src = _forwarded(ix, g, c, ex)
             if src is None:
                 continue  # built from literals, not a conversion of an existing component
             done.add(id(c))
